@@ -41,6 +41,8 @@ type monitor struct {
 	opIndex int
 
 	userEdited   map[string]bool           // Job UID -> spec/metadata edited or deletion requested by a user
+	userEditSeq  map[string]int            // Job UID -> ledger sequence of the latest user edit
+	finishedSeq  map[string]int            // Job UID -> ledger sequence at which the current finished result was recorded
 	podCreates   map[string][]podCreate    // jobUID|hash -> creations in order
 	everTasks    map[string]map[string]bool // Job UID -> task names ever listed in status
 	rejectedJobs map[string]bool           // Job UID -> carries the admission-error annotation
@@ -85,7 +87,7 @@ type podCreate struct {
 }
 
 func newMonitor(r *e2run) *monitor {
-	return &monitor{r: r, labels: map[string]bool{}, userEdited: map[string]bool{}, podCreates: map[string][]podCreate{},
+	return &monitor{r: r, labels: map[string]bool{}, userEdited: map[string]bool{}, userEditSeq: map[string]int{}, finishedSeq: map[string]int{}, podCreates: map[string][]podCreate{},
 		everTasks: map[string]map[string]bool{}, rejectedJobs: map[string]bool{}, jobCtlWrote: map[string]bool{}, startedAt: map[string]time.Time{}, observed: map[string]bool{}, foreign: map[string]string{}}
 }
 
@@ -194,11 +196,9 @@ func (m *monitor) onJobEntry(e *sim.Entry) {
 	if e.After != nil {
 		after = e.After.(*execution.Job)
 	}
-	if e.Actor == "user" && before != nil {
+	if (e.Actor == "user" || e.Actor == "gc") && before != nil {
 		m.userEdited[string(before.UID)] = true
-	}
-	if e.Actor == "gc" && before != nil {
-		m.userEdited[string(before.UID)] = true
+		m.userEditSeq[string(before.UID)] = e.Seq
 	}
 
 	// --- C13: a Job leaves the API only after every task listed in its status ---
@@ -382,15 +382,31 @@ func (m *monitor) checkForward(e *sim.Entry, before, after *execution.Job) {
 	}
 	bf, af := before.Status.Condition.Finished, after.Status.Condition.Finished
 	uid := string(after.UID)
-	if bf != nil && af == nil && !m.userEdited[uid] {
+	// "unless the user edits or deletes it": an edit counts only if it happened after
+	// the result it is supposed to excuse was recorded.
+	editedSince := m.userEditSeq[uid] > m.finishedSeq[uid] || after.DeletionTimestamp != nil
+	if bf == nil && af != nil {
+		m.finishedSeq[uid] = e.Seq
+	}
+	if bf != nil && af == nil && !editedSince {
 		m.fail("C11", "unfinished", "finished Job %s became unfinished (by %s) without a user edit", key, e.Actor)
 	}
-	if bf != nil && af != nil && !m.userEdited[uid] && after.DeletionTimestamp == nil {
+	if bf != nil && af != nil {
+		changed := false
 		if bf.Result != af.Result {
-			m.fail("C11", "result-changed", "Job %s result changed %s -> %s without a user edit", key, bf.Result, af.Result)
+			changed = true
+			if !editedSince {
+				m.fail("C11", "result-changed", "Job %s result changed %s -> %s without a user edit since it finished", key, bf.Result, af.Result)
+			}
 		}
 		if !bf.FinishTimestamp.Equal(&af.FinishTimestamp) {
-			m.fail("C11", "finishTime-changed", "Job %s finish time changed %v -> %v without a user edit", key, bf.FinishTimestamp.UTC(), af.FinishTimestamp.UTC())
+			changed = true
+			if !editedSince {
+				m.fail("C11", "finishTime-changed", "Job %s finish time changed %v -> %v without a user edit since it finished", key, bf.FinishTimestamp.UTC(), af.FinishTimestamp.UTC())
+			}
+		}
+		if changed {
+			m.finishedSeq[uid] = e.Seq
 		}
 	}
 	if after.Status.CreatedTasks < before.Status.CreatedTasks {
@@ -857,7 +873,9 @@ func (m *monitor) afterStep() {
 	seen := map[string]string{}
 	for _, j := range m.r.w.API.Jobs() {
 		ann, ok := j.Annotations[annScheduleTime]
-		if !ok {
+		if !ok || j.Spec.Type != execution.JobTypeScheduled {
+			// only scheduled Jobs; an ad-hoc Job may inherit whatever annotations the
+			// JobConfig's template carries
 			continue
 		}
 		ref := metav1.GetControllerOf(j)
@@ -925,6 +943,7 @@ func (m *monitor) drive(rounds int, step time.Duration) bool {
 		if !m.r.settle() {
 			return false
 		}
+		m.checkDueStarted()
 		if !busy && i > 2 {
 			quiet := true
 			for _, p := range w.API.Pods() {
@@ -943,6 +962,38 @@ func (m *monitor) drive(rounds int, step time.Duration) bool {
 		}
 	}
 	return true
+}
+
+// checkDueStarted: C07 - at a fixpoint reached by the controllers' own deferred
+// re-syncs (no resync, no user action), every Job whose startAfter passed at
+// least a second ago and which the concurrency policy allows to start is started.
+func (m *monitor) checkDueStarted() {
+	w := m.r.w
+	now := w.Clock.Now()
+	jobs := w.API.Jobs()
+	active := map[string]int64{}
+	for _, j := range jobs {
+		if isActive(j) {
+			active[jcUIDOf(j)]++
+		}
+	}
+	for _, j := range jobs {
+		sa := j.Spec.StartPolicy
+		if !isQueued(j) || j.DeletionTimestamp != nil || hasAdmErr(j) || sa == nil || sa.StartAfter == nil || sa.StartAfter.Time.After(now.Add(-time.Second)) {
+			continue
+		}
+		uid := jcUIDOf(j)
+		if uid != "" {
+			jc := m.jcByUID(uid)
+			if jc == nil {
+				continue
+			}
+			if pol := policyOf(j); (pol == execution.ConcurrencyPolicyEnqueue || pol == execution.ConcurrencyPolicyForbid) && active[uid] >= jc.Spec.Concurrency.GetMaxConcurrency() {
+				continue
+			}
+		}
+		m.fail("C07", "due-not-started-at-fixpoint", "Job %s has startAfter %v, the clock is %v, nothing blocks it, every queue is empty - but it is still not started", j.Name, sa.StartAfter.UTC(), now.UTC())
+	}
 }
 
 func (m *monitor) finale() {
